@@ -59,6 +59,7 @@ type RunConfig struct {
 	Straggler        int     `json:"straggler"`
 	Synthetic        bool    `json:"synthetic"`
 	PJoinerBadger    float64 `json:"p_joiner_badger,omitempty"`
+	LeaveFirst       bool    `json:"leave_first,omitempty"` // a validator leaves early; joins and re-fast-forwards come after its removal
 	PAppError        float64 `json:"p_app_error,omitempty"`
 	StragglerP       float64 `json:"straggler_p"`
 	Variants         int     `json:"variants"`
@@ -120,6 +121,7 @@ type genState struct {
 	// chatty pair: a burst of exchanges between two validators only
 	burstLeft      int
 	burstA, burstB int
+	leaveStep      int // LeaveFirst: step at which the early leave was requested
 }
 
 func (c *Cluster) validatorsAlive() []*SimNode {
@@ -294,6 +296,16 @@ func (c *Cluster) genStep(g *genState) *Step {
 			}
 		}
 	}
+	if cfg.LeaveFirst && g.leaves == 0 && c.stepNo > 12 && r.Bool(0.15) {
+		// directed: a validator leaves early, so that later anchors (joiners and
+		// lagging nodes reset from them) come after the removal took effect and
+		// their frames hold a Root for a participant that is no longer a peer
+		if s := c.genLeave(g); s != nil {
+			g.leaveStep = c.stepNo
+			c.stats.probe("directed-early-leave")
+			return s
+		}
+	}
 	x := r.Float()
 	acc := 0.0
 	pick := func(p float64) bool {
@@ -345,6 +357,9 @@ func (c *Cluster) genStep(g *genState) *Step {
 			}
 		}
 	case pick(cfg.PJoin):
+		if cfg.LeaveFirst && (g.leaves == 0 || c.stepNo < g.leaveStep+60) {
+			break
+		}
 		if s := c.genJoin(g); s != nil {
 			return s
 		}
